@@ -94,6 +94,31 @@ def check(run, ctx):
     arg_ok = any(isinstance(n, ast.Call) and call_name(n) == "Orchestrator" and {k.arg for k in n.keywords} >= {"project_root", "config"} for n in ast.walk(w.node))
     (run.ok(P3, "worker orchestrator", "built from the parent's project_root and config") if arg_ok else run.finding(P3, "_lint_file_worker", "config", "the worker does not reuse the parent's project_root and config", w.loc))
 
+    P5 = run.rule("P5", "the work item forwards (path as iterated, self.project_root, self.config) unchanged and the worker lints exactly that path", floor=2,
+                  decides="a worker judges the same path spelling, project root and configuration as the sequential loop (exclusions, ignore patterns and reported file_path all read the path)")
+    tup = wi.elt if isinstance(wi, ast.ListComp) else None
+    tgt = wi.generators[0].target if isinstance(wi, ast.ListComp) else None
+    if isinstance(tup, ast.Tuple) and isinstance(tgt, ast.Name) and len(tup.elts) == 3:
+        want = [tgt.id, "self.project_root", "self.config"]
+        got = [ast.unparse(e) for e in tup.elts]
+        if got == want:
+            run.ok(P5, "work item", f"({', '.join(got)}) for {tgt.id} in file_paths")
+        else:
+            bad = next(g for g, w_ in zip(got, want) if g != w_)
+            run.finding(P5, "_execute_parallel_linting", f"work-item:{bad}", f"the work item carries `{bad}` instead of the value the sequential path uses ({want}): workers see a different path spelling / root / configuration than lint_files does, so exclusion by path component, ignore patterns and the reported file_path differ under --parallel", ex.loc)
+    else:
+        run.require(False, "_execute_parallel_linting: work items are no longer 3-tuples built by one comprehension over file_paths - P5 cannot decide the new shape")
+    unpack = next((n for n in w.node.body if isinstance(n, ast.Assign) and isinstance(n.targets[0], ast.Tuple) and isinstance(n.value, ast.Name) and n.value.id == w.node.args.args[0].arg), None)
+    names = [e.id for e in unpack.targets[0].elts if isinstance(e, ast.Name)] if unpack is not None else []
+    lfc = next((n for n in ast.walk(w.node) if is_call_named(n, "lint_file")), None)
+    oc = next((n for n in ast.walk(w.node) if isinstance(n, ast.Call) and call_name(n) == "Orchestrator"), None)
+    rebinds = [n for n in ast.walk(w.node) if isinstance(n, (ast.Assign, ast.AugAssign, ast.AnnAssign)) and n is not unpack and any(isinstance(x, ast.Name) and isinstance(x.ctx, ast.Store) and x.id in names for x in ast.walk(n))]
+    run.require(len(names) == 3 and lfc is not None and oc is not None, "_lint_file_worker: tuple unpacking / Orchestrator(...) / lint_file(...) not found - P5 cannot decide the new shape")
+    if len(names) == 3 and lfc is not None and oc is not None and not rebinds and [ast.unparse(a) for a in lfc.args] == [names[0]] and {k.arg: ast.unparse(k.value) for k in oc.keywords} == {"project_root": names[1], "config": names[2]}:
+        run.ok(P5, "worker", f"{', '.join(names)} = args; Orchestrator(project_root={names[1]}, config={names[2]}).lint_file({names[0]})")
+    else:
+        run.finding(P5, "_lint_file_worker", "worker-args", "the worker does not lint exactly the forwarded path with exactly the forwarded project root and configuration", w.loc)
+
     ldp = repo.func(f"{ORCH}.Orchestrator.lint_directory_parallel")
     ld = repo.func(f"{ORCH}.Orchestrator.lint_directory")
     def coll_args(f):
